@@ -67,6 +67,24 @@ theorem C07_complete (lookup : Bytes → DirSpec) (pat : Bytes) (st : PadStyle) 
             (padChars st w) fs.ext).setPaddingStyle st :=
   FindComplete.find_complete lookup pat st hidden fs entries w hp hl hnd toks htoks h2 hw
 
+/-- … and with StrictPadding: the same sequence when the pattern carries no padding or its pad
+    width is the candidates' digit width, nothing otherwise ("only files whose digit width is
+    compatible with the pattern's pad width", for a directory of one width) -/
+theorem C07_complete_strict (lookup : Bytes → DirSpec) (pat : Bytes) (st : PadStyle) (hidden : Bool)
+    (fs : Seq) (entries : List Entry) (w : Nat)
+    (hp : Seq.parse st pat = .ok fs) (hl : lookup (openDir fs.dir) = some entries)
+    (hnd : ∀ e ∈ entries, e.kind ≠ .dangling)
+    (toks : List Bytes)
+    (htoks : toks = FindComplete.candToks ⟨false, hidden, st⟩ fs
+        ((entries.filter fun e => e.kind = .file ∨ e.kind = .linkFile).map fun e => ⟨dirPrefix (openDir fs.dir), e.name⟩))
+    (h2 : 2 ≤ toks.length) (hw : ∀ tk ∈ toks, tk.length = w) (hw1 : 1 ≤ w)
+    (hfr : framesToFrameRange (toks.map atoiOr0) true 0 ≠ []) :
+    findSequenceOnDisk lookup pat st true hidden =
+      .ok (if fs.pad.isEmpty = false ∧ (w : Int) ≠ fs.zfill then none
+           else some ((rebuild st fs.dir fs.base (framesToFrameRange (toks.map atoiOr0) true 0)
+                        (padChars st w) fs.ext).setPaddingStyle st)) :=
+  FindComplete.find_complete_strict lookup pat st hidden fs entries w hp hl hnd toks htoks h2 hw hw1 hfr
+
 /-- … and that range text denotes exactly their numbers, ascending (C09), when the numbers are
     distinct and fit an int -/
 theorem C07_complete_frames (toks : List Bytes) (hne : toks ≠ [])
